@@ -19,6 +19,13 @@ import (
 type ctl struct {
 	mu sync.Mutex
 
+	// write batches begun / brought to Commit through the wrapper (atomic). The wrapper begins the engine's batch only at
+	// Commit (the in-memory engine holds its store mutex from BeginBatchWrite to Commit, which the parked clients of the
+	// scheduled scripts could not live with) - so a batch that the code under test begins and then ABANDONS, which in
+	// production wedges a node on the in-memory engine for good, would go unnoticed: it is counted here instead
+	begun, finished int64
+	everGated       int32
+
 	// sequential fault queue: consumed by Commit calls that are not individually stepped
 	faults []string
 	// delete-call failure mask for Del / DelCurrent (compaction): index -> "f" | "c"
@@ -470,7 +477,8 @@ func (w *kvWrap) DelCurrent(ctx context.Context, it storage.Iter) error {
 // batchWrap records operations and replays them into a fresh inner batch at commit time, so that no
 // engine lock (memkv takes its store mutex in BeginBatchWrite) is held across a gate.
 type batchWrap struct {
-	w   *kvWrap
+	w    *kvWrap
+	done int32 // Commit was called (counted once)
 	ops []func(storage.BatchWrite)
 	// (key, ttl) of every put / put-if-absent / compare-and-swap of this batch, for `ttllog`
 	ttls []string
@@ -480,7 +488,10 @@ type batchWrap struct {
 	dels   int
 }
 
-func (w *kvWrap) BeginBatchWrite() storage.BatchWrite { return &batchWrap{w: w} }
+func (w *kvWrap) BeginBatchWrite() storage.BatchWrite {
+	atomic.AddInt64(&w.c.begun, 1)
+	return &batchWrap{w: w}
+}
 
 func (b *batchWrap) PutIfNotExist(key, val []byte, ttl int64) {
 	b.ttls = append(b.ttls, fmt.Sprintf("%s:%d", hx(key), ttl))
@@ -520,6 +531,9 @@ func (b *batchWrap) commitExpiry(ctx context.Context) error {
 }
 
 func (b *batchWrap) Commit(ctx context.Context) error {
+	if atomic.CompareAndSwapInt32(&b.done, 0, 1) {
+		atomic.AddInt64(&b.w.c.finished, 1)
+	}
 	if b.delCur != nil {
 		return b.commitExpiry(ctx)
 	}
